@@ -427,3 +427,66 @@ pub fn build(p: &Program, inp: &Inputs, tamper: &[Tamper]) -> Result<(Composer, 
     apply_tamper(&mut c, tamper);
     Ok((c, regs))
 }
+
+impl Op {
+    /// The same op with its scalar / point register operands renumbered.
+    pub fn map_regs(&self, fs: &dyn Fn(Reg) -> Reg, fp: &dyn Fn(PReg) -> PReg) -> Op {
+        let m4 = |w: &[Reg; 4]| [fs(w[0]), fs(w[1]), fs(w[2]), fs(w[3])];
+        let m3 = |w: &[Reg; 3]| [fs(w[0]), fs(w[1]), fs(w[2])];
+        match self {
+            Op::Witness(_) | Op::Constant(_) | Op::Public(_) | Op::Point(_) | Op::ConstantPoint(_) | Op::PublicPoint(_) => self.clone(),
+            Op::Gate { s, pi, w } => Op::Gate { s: *s, pi: pi.clone(), w: m4(w) },
+            Op::Raw { s, pi, w } => Op::Raw { s: *s, pi: pi.clone(), w: m4(w) },
+            Op::EvalOut { s, pi, w } => Op::EvalOut { s: *s, pi: pi.clone(), w: m3(w) },
+            Op::GateAdd { s, pi, w } => Op::GateAdd { s: *s, pi: pi.clone(), w: m3(w) },
+            Op::GateMul { s, pi, w } => Op::GateMul { s: *s, pi: pi.clone(), w: m3(w) },
+            Op::AssertEq(a, b) => Op::AssertEq(fs(*a), fs(*b)),
+            Op::AssertEqConst(a, k, pi) => Op::AssertEqConst(fs(*a), *k, pi.clone()),
+            Op::Boolean(a) => Op::Boolean(fs(*a)),
+            Op::Select(a, b, c) => Op::Select(fs(*a), fs(*b), fs(*c)),
+            Op::SelectOne(a, b) => Op::SelectOne(fs(*a), fs(*b)),
+            Op::SelectZero(a, b) => Op::SelectZero(fs(*a), fs(*b)),
+            Op::Decomposition(n, a) => Op::Decomposition(*n, fs(*a)),
+            Op::RangeBits(n, a) => Op::RangeBits(*n, fs(*a)),
+            Op::RangePairs(n, a) => Op::RangePairs(*n, fs(*a)),
+            Op::RangeSeam(n, a) => Op::RangeSeam(*n, fs(*a)),
+            Op::LogicAnd(n, a, b) => Op::LogicAnd(*n, fs(*a), fs(*b)),
+            Op::LogicXor(n, a, b) => Op::LogicXor(*n, fs(*a), fs(*b)),
+            Op::Truncate(n, a) => Op::Truncate(*n, fs(*a)),
+            Op::PointFromRegs(x, y) => Op::PointFromRegs(fs(*x), fs(*y)),
+            Op::PointCoords(p) => Op::PointCoords(fp(*p)),
+            Op::AssertEqPoint(a, b) => Op::AssertEqPoint(fp(*a), fp(*b)),
+            Op::AssertEqPublicPoint(a, i) => Op::AssertEqPublicPoint(fp(*a), *i),
+            Op::AssertTorsionFree(a) => Op::AssertTorsionFree(fp(*a)),
+            Op::AddPoint(a, b) => Op::AddPoint(fp(*a), fp(*b)),
+            Op::SubPoint(a, b) => Op::SubPoint(fp(*a), fp(*b)),
+            Op::NegPoint(a) => Op::NegPoint(fp(*a)),
+            Op::MulPoint(s, a) => Op::MulPoint(fs(*s), fp(*a)),
+            Op::SelectIdentity(s, a) => Op::SelectIdentity(fs(*s), fp(*a)),
+            Op::SelectPoint(s, a, b) => Op::SelectPoint(fs(*s), fp(*a), fp(*b)),
+            Op::MulGenerator(s, g) => Op::MulGenerator(fs(*s), *g),
+            Op::SeamAddPoint(a, b) => Op::SeamAddPoint(fp(*a), fp(*b)),
+            Op::SeamTorsionFree(a, k) => Op::SeamTorsionFree(fp(*a), *k),
+            Op::SeamFixedBase(s, g, k) => Op::SeamFixedBase(fs(*s), *g, *k),
+            Op::SeamCanonicalJubjub(s) => Op::SeamCanonicalJubjub(fs(*s)),
+            Op::SeamTruncSplit(a, b, n) => Op::SeamTruncSplit(fs(*a), fs(*b), *n),
+        }
+    }
+
+    /// Scalar and point registers the op reads.
+    pub fn operands(&self) -> (Vec<Reg>, Vec<PReg>) {
+        let s = std::cell::RefCell::new(Vec::new());
+        let p = std::cell::RefCell::new(Vec::new());
+        let _ = self.map_regs(
+            &|r| {
+                s.borrow_mut().push(r);
+                r
+            },
+            &|r| {
+                p.borrow_mut().push(r);
+                r
+            },
+        );
+        (s.into_inner(), p.into_inner())
+    }
+}
